@@ -971,3 +971,124 @@ def register_read_graph_l_lines(reg):
         notes="a malformed overlap (not <int>M) raises ValueError in the real code: int() is modelled as total, so that exit is not covered; "
               "L lines naming a missing segment are skipped",
     ))
+
+
+# ---- rev_comp at character level (C14): the real body is re-read and symbolically evaluated over (length, index -> code point) ------
+class _SymStrT:
+    """decoder of a symbolic string (length term, array term) from a counter-model"""
+    name = "SymStr"
+
+    def decode(self, m, t):
+        n, arr = t
+        k = m.eval(n, model_completion=True).as_long()
+        out = []
+        for i in range(max(0, min(k, 64))):
+            c = m.eval(z3.Select(arr, z3.IntVal(i)), model_completion=True).as_long()
+            out.append(chr(c) if 0 <= c < 0x110000 else "?")
+        return "".join(out)
+
+
+class _IntDecT:
+    name = "Int"
+
+    def decode(self, m, t):
+        return m.eval(t, model_completion=True).as_long()
+
+
+class _V:
+    def __init__(self, t, ty):
+        self.t, self.ty = t, ty
+
+
+def _rev_comp_source(repo):
+    """(expression AST of the single return statement of rev_comp, its parameter name, {name: translation dict} of the module-level
+    str.maketrans(<literal>, <literal>) tables).  Anything else: Unsupported (the check exits 2, undecided)."""
+    import ast, os
+    tree = ast.parse(open(os.path.join(repo, UTILS)).read())
+    tables, fn = {}, None
+    for n in tree.body:
+        if isinstance(n, ast.Assign) and len(n.targets) == 1 and isinstance(n.targets[0], ast.Name) and isinstance(n.value, ast.Call):
+            f = n.value.func
+            if isinstance(f, ast.Attribute) and f.attr == "maketrans" and isinstance(f.value, ast.Name) and f.value.id == "str":
+                args = n.value.args
+                if len(args) == 2 and all(isinstance(a, ast.Constant) and isinstance(a.value, str) for a in args) and \
+                        len(args[0].value) == len(args[1].value) and not n.value.keywords:
+                    tables[n.targets[0].id] = {ord(a): ord(b) for a, b in zip(args[0].value, args[1].value)}  # later duplicates win, as in CPython
+                else:
+                    raise Unsupported("rev_comp lemma: table %s is not str.maketrans(<str literal>, <str literal>) of equal lengths" % n.targets[0].id)
+        if isinstance(n, ast.FunctionDef) and n.name == "rev_comp":
+            fn = n
+    if fn is None:
+        raise Unsupported("rev_comp lemma: gaftools/utils.py has no function rev_comp")
+    body = [s for s in fn.body if not (isinstance(s, ast.Expr) and isinstance(s.value, ast.Constant))]  # docstring dropped
+    if len(fn.args.args) != 1 or len(body) != 1 or not isinstance(body[0], ast.Return) or body[0].value is None:
+        raise Unsupported("rev_comp lemma: body is not a single return of an expression over one parameter")
+    return body[0].value, fn.args.args[0].arg, tables
+
+
+def _rc_eval(e, param, tables, s):
+    """symbolic value (length, index -> code point) of a string expression built from the parameter, [::-1] and .translate(<table>)"""
+    import ast
+    if isinstance(e, ast.Name) and e.id == param:
+        return s
+    if isinstance(e, ast.Subscript) and isinstance(e.slice, ast.Slice) and e.slice.lower is None and e.slice.upper is None:
+        st = e.slice.step
+        minus1 = (isinstance(st, ast.UnaryOp) and isinstance(st.op, ast.USub) and isinstance(st.operand, ast.Constant) and st.operand.value == 1) or \
+                 (isinstance(st, ast.Constant) and st.value == -1)
+        n, f = _rc_eval(e.value, param, tables, s)
+        if st is None:
+            return n, f
+        if minus1:
+            return n, (lambda i, n=n, f=f: f(n - 1 - i))
+    if isinstance(e, ast.Call) and isinstance(e.func, ast.Attribute) and e.func.attr == "translate" and len(e.args) == 1 and not e.keywords \
+            and isinstance(e.args[0], ast.Name) and e.args[0].id in tables:
+        tab = tables[e.args[0].id]
+        n, f = _rc_eval(e.func.value, param, tables, s)
+
+        def g(i, f=f, tab=tab):
+            c = f(i)
+            out = c
+            for k in sorted(tab):
+                out = z3.If(c == k, z3.IntVal(tab[k]), out)
+            return out
+        return n, g
+    raise Unsupported("rev_comp lemma: expression %s is outside the modelled subset (parameter, [::-1], .translate(<module-level maketrans table>))" % ast.dump(e)[:120])
+
+
+def lemma_rev_comp(reg, repo):
+    """C14, character level.  rev_comp's real return expression is evaluated symbolically on strings given as (length n >= 0, total map from
+    index to code point); s[::-1] is (n, i -> s[n-1-i]), s.translate(T) is (n, i -> T.get(s[i], s[i])) for the maketrans table read from the
+    source (CPython semantics of these two operations and of two-argument str.maketrans: assumed).  Proved for all lengths:
+      length kept; on A/C/G/T the base at i is the Watson-Crick complement of the base at n-1-i; rev_comp(rev_comp(s)) == s;
+      rev_comp(p + q) == rev_comp(q) + rev_comp(p)  (hence the reversed walk spells the reverse complement of the walk)."""
+    expr, param, tables = _rev_comp_source(repo)
+    I = z3.IntSort()
+    A = z3.ArraySort(I, I)
+    n, lp, lq, i = z3.Ints("rc_n rc_lp rc_lq rc_i")
+    sa, pa, qa = z3.Const("rc_s", A), z3.Const("rc_p", A), z3.Const("rc_q", A)
+    rc = lambda s: _rc_eval(expr, param, tables, s)
+    s = (n, lambda k: z3.Select(sa, k))
+    p = (lp, lambda k: z3.Select(pa, k))
+    q = (lq, lambda k: z3.Select(qa, k))
+    cat = lambda x, y: (x[0] + y[0], lambda k: z3.If(k < x[0], x[1](k), y[1](k - x[0])))
+    chars = []  # no hypothesis on the code points is needed: the four statements hold for arbitrary integers as characters
+    wc = lambda c: z3.If(c == ord("A"), ord("T"), z3.If(c == ord("T"), ord("A"), z3.If(c == ord("C"), ord("G"), ord("C"))))
+    base = lambda c: z3.Or(*[c == ord(x) for x in "ACGT"])
+    sty, ity = _SymStrT(), _IntDecT()
+    outs = []
+
+    def ob(name, hyps, goal, inputs, note):
+        o = Oblig("gaftools.utils:rev_comp::" + name, "lemma", hyps, goal, note=note)
+        o.inputs = inputs
+        outs.append(o)
+    r = rc(s)
+    in_s = [("s", _V((n, sa), sty)), ("i", _V(i, ity))]
+    ob("length-kept", [n >= 0] + chars, r[0] == n, in_s, "len(rev_comp(s)) == len(s)")
+    ob("base-at-i-is-complement-of-base-at-n-1-i", [n >= 0, 0 <= i, i < n, base(z3.Select(sa, n - 1 - i))] + chars, r[1](i) == wc(z3.Select(sa, n - 1 - i)), in_s,
+       "A<->T, C<->G, read from the other end")
+    rr = rc(r)
+    ob("involution", [n >= 0, 0 <= i, i < n] + chars, z3.And(rr[0] == n, rr[1](i) == z3.Select(sa, i)), in_s, "rev_comp(rev_comp(s)) == s, every character")
+    lhs, rhs = rc(cat(p, q)), cat(rc(q), rc(p))
+    ob("reverses-concatenation", [lp >= 0, lq >= 0, 0 <= i, i < lp + lq] + chars, z3.And(lhs[0] == rhs[0], lhs[1](i) == rhs[1](i)),
+       [("p", _V((lp, pa), sty)), ("q", _V((lq, qa), sty)), ("i", _V(i, ity))], "rev_comp(p + q) == rev_comp(q) + rev_comp(p)")
+    return outs
